@@ -110,10 +110,22 @@ func envInt(name string, def int) int {
 	return def
 }
 
+// verifRoot is the directory this binary belongs to (<root>/bin/govc), so that a copy of /verif
+// elsewhere reads its own props and writes its own evidence; /verif otherwise.
+func verifRoot() string {
+	if exe, err := os.Executable(); err == nil {
+		root := filepath.Dir(filepath.Dir(exe))
+		if _, err := os.Stat(filepath.Join(root, "props")); err == nil {
+			return root
+		}
+	}
+	return "/verif"
+}
+
 func cmdCheck(argv []string) int {
 	fs := flag.NewFlagSet("check", flag.ExitOnError)
 	repo := fs.String("repo", "/repo", "repository root")
-	verif := fs.String("verif", "/verif", "verification root")
+	verif := fs.String("verif", verifRoot(), "verification root")
 	only := fs.String("func", "", "verify only this function")
 	tierName := fs.String("tier", "", "quick|thorough (default $VERIF_TIER or quick)")
 	noEvidence := fs.Bool("no-evidence", false, "do not write the evidence file (selftests)")
